@@ -39,7 +39,8 @@ ANCHORS = [
 MW_KINDS = ['P', 'S', 'Q', 'R', 'A']     # A = answers every request itself, notifications included
 # U = returns UNSET for every request, calls included (MiddlewareResponse allows it): nothing is sent for that element
 EXTRA_MW_KINDS = ['U']
-TABLES = ['none', 'generic', 'per-code', 'both', 'two-per-key', 'replace-generic', 'replace-per-code', 'annotate', 'same-callable']
+TABLES = ['none', 'generic', 'per-code', 'both', 'two-per-key', 'replace-generic', 'replace-per-code', 'annotate', 'same-callable',
+          'codes-declared-before-generic']
 FLOORS = {'*': {**{f'mw:{k}:depth{d}': 20 for k in MW_KINDS + EXTRA_MW_KINDS for d in range(3)},
                 **{f'table:{t}:failing': 20 for t in TABLES if t != 'none'},
                 **{f'table:{t}:batch': 5 for t in TABLES}, **{f'table:{t}:notification': 5 for t in TABLES},
@@ -174,6 +175,9 @@ def table_spec(name):
         return {None: ['replace'], 5000: ['annotate'], **{c: ['annotate'] for c in RAISED_CODES}}
     if name == 'replace-per-code':
         return {c: ['replace', 'annotate'] for c in RAISED_CODES} | {5100: ['identity'], 5101: ['identity']}
+    if name == 'codes-declared-before-generic':
+        # the mapping lists the per-code entries first: the order of application is generic, then per-code, all the same
+        return {**{c: ['annotate'] for c in RAISED_CODES}, None: ['annotate', 'identity']}
     if name == 'same-callable':
         # one handler object listed generically and (twice) per code: every listed entry applies, in list order
         return {None: ['shared'], **{c: ['annotate', 'shared', 'shared'] for c in RAISED_CODES}}
